@@ -216,13 +216,19 @@ def run_create_session(repo, autotrust, raises, pass_flag=True):
     trusted = []
 
     def process(itp, recv, a, k, env, d, e):
-        if raises:
+        trusted_before = len(trusted)
+        attempts.append(trusted_before)
+        # the library refuses the bundle as long as the presented identity is not the pinned one (once it has been
+        # trusted, the same bundle is accepted)
+        if raises and not trusted_before:
             raise _Raise(LIBEXC, "library raises UntrustedIdentityException")
         return C_NONE
 
     def trust(itp, fn, owner, self_val, a, k):
         trusted.append(list(a))
         return C_NONE
+    attempts = []
+    run_create_session.attempts = attempts
     it = Interp(repo, {}, {}, hooks={"ext:*.processPreKeyBundle": process, "fn:trust_identity": trust})
     o = Obj(cls)
     o.fields["_store"] = ("ext", "store", [])
@@ -536,6 +542,13 @@ def rule_auto(ctx):
     (out, exc), trusted2 = run_create_session(repo, True, True)
     ok2 = out == "ret" and len(trusted2) == 1 and len(trusted2[0]) == 2 and _presented(trusted2[0][0], "name") and _presented(trusted2[0][1], "key")
     ctx.check("C17.auto", ok2, wc, "auto-trust stores the presented identity", "auto-trust must store the name and key carried by the exception (the presented identity); create_session %s and stored %s" % (out, [[show_v(x) for x in t] for t in trusted2]), "stores the presented name and key")
+    # ... and builds the session: the library refused the bundle before it built anything, so a pin without a session (a
+    # prekey message that was trusted but could not be decrypted leaves exactly that) would otherwise stay without one -
+    # the first send after the contact's reinstall then encrypts on an empty session record and dies
+    att = list(run_create_session.attempts)
+    ctx.check("C17.auto", att == [0, 1], wc, "the session is built once the new identity is trusted",
+              "with auto-trust on, create_session stores the new identity but never processes the bundle again (%d attempt(s), %s of them after trusting): no session exists for the contact, `messaging resumes` only after an exception out of the first send and a lost message" % (len(att), sum(1 for x in att if x)),
+              "the bundle is processed again after the identity was trusted")
     # after auto-trusting, the receive path retries the message
     ctx.check("C17.auto", attempts == 2 and len(ups) == 1, w, "retry after auto-trust", "after auto-trusting the message must be processed again so that messaging resumes (%d decrypt attempt(s), %d delivery)" % (attempts, len(ups)), "message re-processed")
     # trust_identity delegates to the store with the same arguments, in order
